@@ -16,7 +16,7 @@ CHECKS = {
         pkg="props/c13", level="exploration",
         technique="property-based testing (rapid) + exhaustive small-key enumeration against independent reference partitioners",
         level_text=("Differential against independently written FNV-1a/CRC-32/murmur2 partitioners: every 0..2-byte key x partition counts "
-                    "enumerated, longer keys generated; model-based sequences for RoundRobin and LeastBytes, incl. concurrent callers. "
+                    "enumerated, longer keys generated; model-based sequences for RoundRobin and LeastBytes, incl. concurrent callers. Hash / ReferenceHash with a user-supplied Hasher: values chosen directly at the sign boundaries, and stateful hashers (crc32, fnv) over call sequences; LeastBytes in spin-barrier rounds (N simultaneous calls from a balanced state pick N distinct partitions) and with per-partition totals beyond 2^32 bytes. "
                     "Exploration is the right level: the domain is unbounded, but the hash functions have no key-length-specific branches beyond length mod 4."),
         level_note="trusts the reference formulas (DESIGN.md A.4) and that Writer offers partitions 0..n-1",
         rule=("cases = (balancer, key, partition count) triples, RoundRobin call sequences and LeastBytes size sequences; "
@@ -60,7 +60,7 @@ CHECKS = {
         level_text=("Every registered API x version x direction: generated field values are encoded by the library and strictly decoded by the "
                     "reference codec (size prefix, header, every field, no trailing bytes; byte-identical for non-flexible versions), "
                     "reference-encoded responses (with unknown tagged fields) are decoded by the library and compared field by field, one frame consumed exactly; "
-                    "library-only round trip; both the default and the `unsafe` build of the protocol package. Exploration: values are sampled, (api,version,direction) is covered completely."),
+                    "library-only round trip; both the default and the `unsafe` build of the protocol package. The hand-written Conn codec: every request-emitting Conn operation (ApiVersions, Brokers, Controller, ReadPartitions, ReadOffset/First/Last, Seek, ReadBatchWith, WriteMessages / WriteCompressedMessages, CreateTopics, DeleteTopics) with generated arguments, client ids (empty, multi-byte, long) and broker version ceilings, and the group APIs through ConsumerGroup: the fake broker decodes each request strictly and the field values are compared with what the operation asked for; fetch responses are compared record by record under chunked delivery; a byte-by-byte sweep puts the second record set of a produce request across the encoder's 64 KiB page boundary. Exploration: values are sampled, (api,version,direction) is covered completely."),
         level_note="trusts the pinned schema table refcodec/schema_table.go (reviewed against the Kafka message definitions; deviations listed in DESIGN.md) and the reference primitives (self-tested in setup)",
         rule=("case = (api, version, direction, generated value tree); rapid draws api and version uniformly from the 40 registered APIs, values from boundary-biased generators "
               "(null/empty/long strings, empty/null/>127-element arrays, int min/max, unknown tags). Non-trivial = at least one field present at that version has a non-default value; "
@@ -121,7 +121,7 @@ CHECKS = {
         pkg="props/c07", level="exploration",
         technique="model-based property testing (rapid): generated submitters and retry-provoking fault scripts, order oracle over the fake broker's partition logs",
         level_text=("Writer scenarios biased to ordering (1-2 partitions, batch size 1-3, 1-3 submitters, sync and async, lost acks / temporary errors / cuts / leader moves on chosen produce requests). "
-                    "Oracle: inside every appended copy the submitter's order is kept, every copy of an earlier batch precedes every copy of a later one, and per submitter the first occurrences in the log are in submission order."),
+                    "Oracle: inside every appended copy the submitter's order is kept, every copy of an earlier batch precedes every copy of a later one, and per submitter the first occurrences in the log are in submission order. Further strata: a slow Logger (user callbacks as schedule perturbation), the batch timer of a partial batch racing with a call that fills the next batch, a stampede of simultaneous first submissions to one partition, a broker that stops reading in the middle of a produce request for longer than WriteTimeout and then reads on (write stall); the order rules are evaluated on what was appended also when Close hangs."),
         level_note="interleavings of submitters, batch timers and retries are sampled; trusts the fake broker to append requests in arrival order",
         rule=("case = writer scenario (see C01) with ordering bias; non-trivial = some partition received >= 2 distinct batches and at least one batch was sent more than once; "
               "distinct by (partitions, batch size, mode, balancer, fault multiset, labels)."),
@@ -133,7 +133,7 @@ CHECKS = {
         technique="property-based testing (rapid) with boundary-size generators; invariant over every produce request seen by the fake broker plus no-further-input flush checks",
         level_text=("Message sizes are generated around the limits (exactly BatchBytes, +-1, exactly filling BatchSize), with invalid calls (oversize message, writer-level and message-level topic mixed or missing) mixed in. "
                     "Every produce request is checked for <= BatchSize records, <= BatchBytes by the pinned size formula and a single topic-partition; rejected calls must leave no trace on the wire; "
-                    "accepted messages must reach the broker without further input (async settle stratum; full-batch stratum with a 10 s timer)."),
+                    "accepted messages must reach the broker without further input (async settle stratum; full-batch stratum with a 10 s timer). Further strata: a steady stream of appends with gaps shorter than BatchTimeout (no message may wait more than BatchTimeout + 700 ms for a healthy, idle broker), a small message followed by one of exactly BatchBytes (both batches leave at once), Writer.BatchBytes left at its default with messages around 1 MiB."),
         level_note="time bounds: late-but-arrived is inconclusive, only never-arrived (3 s past BatchTimeout, idle broker) or a full batch waiting >3 s for a 10 s timer is a violation",
         rule=("case = writer scenario without broker faults, sizes drawn around BatchBytes/BatchSize, 1 in 15 calls with an invalid topic combination; strata by case index: async+settle, full batches with far timer, free. "
               "Non-trivial = at least one batch closed by size and one by timer, or an invalid call; distinct by (limits, mode, balancer, labels)."),
@@ -184,7 +184,7 @@ CHECKS = {
         level_text=("The product (3 version profiles x 23 Conn operations incl. the consumer-group operations x each error field of the response x 8 error codes x 23 following operations) is enumerated "
                     "(thorough: completely; quick: a 1/23 slice in which codes and following operations rotate under every (profile, operation, field)). The fake broker answers the first operation with the code in that field; "
                     "the following operation on the same Conn must return what it returns on a freshly dialled Conn to an identical cluster. Transport-level faults (cut at byte k, dropped response, garbage size prefix, wrong correlation id) "
-                    "must make the first operation fail, every later operation fail and nothing more be written."),
+                    "must make the first operation fail, every later operation fail and nothing more be written. (that a request is still written before the later operation fails is recorded, not judged). Also: an error code (with and without an empty API list) on the implicit ApiVersions exchange of every negotiating operation, enumerated completely; a response that never comes while the connection stays open; goroutines reading single messages (batches closed before the end of the fetch response) while others run request/response operations on the same Conn."),
         level_note="the group operations are reached through exported wrappers compiled under the verif tag; state equality of the two clusters relies on the fake applying nothing when it answers with an injected code",
         rule=("case = (profile, operation, error field, code | transport fault, following operation); non-trivial = the fault reached the client as an error of the first operation; distinct by the tuple."),
         assumptions=["error codes are injected only into fields the API's response has at the negotiated version", "one broker plays leader, controller and coordinator"],
@@ -203,7 +203,7 @@ CHECKS = {
                     "(group ids and transactional ids in separate key spaces), 1-2 bootstrap addresses, MetadataTTL 20-100 ms, per broker an advertised range for each of 21 exercised APIs "
                     "(default, max below / above the library's, min raised, single version; always overlapping) and a history of 5-25 steps: Produce, Fetch, ListOffsets over several leaders, Client.Metadata with topic filters "
                     "(known, unknown, duplicate, empty, nil), wire Metadata with auto-creation, FindCoordinator, 10 group APIs, 4 transaction APIs, CreateTopics/DeleteTopics, 1-3 concurrent copies of a request, interleaved with leader moves, "
-                    "coordinator moves, controller moves, broker additions (with their own version table) and removals, waits for the cache to catch up and sleeps. Oracle over the fake's journal: (1) every request is encoded at "
+                    "coordinator moves, controller moves, broker additions (with their own version table) and removals, waits for the cache to catch up and sleeps. Also: broker id 0, a broker that keeps id and host and comes back on another port (requests must use the advertised address), the whole cluster unreachable when the transport is first used and again later for longer than the TTL (established connections reset). Oracle over the fake's journal: (1) every request is encoded at "
                     "min(library max, broker max) of the ApiVersions answer given on that very connection and never outside the advertised range; (2) every Produce/Fetch/ListOffsets part arrives at the leader, every Create/DeleteTopics at "
                     "the controller designated by one of the metadata responses the transport can have been using (from the response matched by a cache probe taken right before the call up to the last one that reached a broker before the request did), "
                     "every group / transaction request at a broker named by a FindCoordinator answer for that key and key space (or the true coordinator); (3) when the cache equals the cluster layout at the start of a call the request really reaches the designated broker; "
@@ -230,7 +230,7 @@ CHECKS = {
                     "and SeekDontCheck, in and out of range, each followed by Offset(), ReadPartitions (own topic, lists, all, unknown). Client: ListOffsets over many topics/partitions/leaders with First/Last/TimeOffsetOf mixes and repeated partitions, "
                     "OffsetFetch (lists and all-topics), OffsetCommit (then the coordinator's recorded offsets+metadata are compared), ConsumerOffsets, Metadata. Faults: error code or dropped connection on exactly one partition's (or one sub-request's) "
                     "ListOffsets, refused dials to one leader, error code on one partition of an OffsetFetch / OffsetCommit answer (the rejected commit is not applied), unknown partitions, leaderless partitions; the same query runs without and with the fault "
-                    "and everything but the failed partition must be identical and equal to the model."),
+                    "and everything but the failed partition must be identical and equal to the model. Metamorphic: Conn.ReadPartitions on identical clusters under Metadata v1 and v6 gives the same answer. Isolation levels: with an open transaction ListOffsets(read_committed) reports the last stable offset, read_uncommitted the high watermark."),
         level_note="cluster state is static while a query runs (only OffsetCommit ops change it, sequentially), so 'the state when the request was served' is the model's state; Metadata v0 is excluded (the transport cannot ask for all topics at v0, C12's business)",
         rule=("case = (cluster spec, 1-6 ops; an op = a Conn program of 3-10 steps or one Client call, optional fault). Strata drawn per case: TestConn 1/4 seek-heavy starting with SeekEnd, 1/4 with a fault on the k-th ListOffsets of the connection; "
               "TestClient 1/3 ListOffsets over every partition of >=2 topics x >=2 partitions on >=2 brokers with a fault, 1/3 starting with a faulted OffsetFetch/OffsetCommit. "
@@ -308,7 +308,7 @@ CHECKS = {
         technique="property-based testing (rapid) of generated concurrent programs with payload-tagged requests; adversarial response timing from the fake broker; schedule-point yields",
         level_text=("2-8 goroutines share one Conn (or 2-12 share one Transport to 1-3 brokers); every call asks for something only it asks for (a unique timestamp, topic, group, key, record value, byte limit) and the fake broker derives the answer from that tag. "
                     "Responses are delayed, dribbled byte by byte, held back while other calls proceed, cut or dropped; transport calls are cancelled at generated moments, idle connections expire, Conn deadlines fire; "
-                    "schedule points inside waitResponse / doRequest / conn.run add yields. Oracle: every call returns an error or the answer carrying its own tag; produce acknowledgements are checked against the log."),
+                    "schedule points inside waitResponse / doRequest / conn.run add yields. Oracle: every call returns an error or the answer carrying its own tag; produce acknowledgements are checked against the log. Also: requests the Transport splits into sub-requests (first one delayed), the deterministic pattern "deadline ends while the answer is held, next call on the same route", fetch responses whose records are consumed lazily while other calls run, batches closed early and twice on three Conns used at the same time, a hammer of 6-16 goroutines released together by a spin barrier for hundreds of rounds (windows of a few instructions), a watchdog for calls that never return, and io.ErrNoProgress on a Conn whose responses were all delivered completely counts as a misaligned stream."),
         level_note="interleavings are sampled; a cross-talk that needs a specific interleaving may be missed in one run",
         rule=("case = (mode, goroutines x tagged calls with per-call broker fault and cancellation point, deadlines, schedule-point yields); non-trivial = >= 2 goroutines and at least one fault or cancellation; distinct by (mode, shape, fault multiset, labels)."),
         assumptions=["the fake answers requests of one connection in request order, as Kafka guarantees"],
@@ -385,7 +385,7 @@ CHECKS = {
                     "Writer (sync/async, several balancers: WriteMessages, cancelled WriteMessages, Stats, Close), Reader (FetchMessage, ReadMessage, SetOffset, SetOffsetAt, Offset, Lag, ReadLag, Stats, Config, Close), "
                     "group Reader (plus CommitMessages, sync and interval commits), Conn (deadline setters, Offset, Seek in all modes, ReadOffsets, WriteMessages, WriteCompressedMessages, ReadBatch+ReadMessage, Read, ReadPartitions, Brokers, Controller, ApiVersions, Close), "
                     "Batch (Read, ReadMessage, Offset, HighWaterMark, Throttle, Partition, Err, Close), Client over one Transport (Metadata, ListOffsets, Produce, Fetch, CreateTopics, OffsetFetch, OffsetCommit, ListGroups, DescribeGroups, ApiVersions, ConsumerOffsets, CloseIdleConnections; short and long metadata TTL), "
-                    "every built-in balancer, every compression codec value. After each program the number of detector reports (runtime.RaceErrors) is compared and the new reports are parsed from the detector's log."),
+                    "every built-in balancer, every compression codec value. Environment events run inside the programs (brokers added / dropped, leaders moved, group rebalances), a plain sleep at a schedule point (writer/reader closeMarked) widens the window after Close marked the value closed without adding synchronisation, a Transport with a TLS configuration is shared by two cluster addresses, codecs and batches are closed twice, Batch.Read gets buffers shorter than the value. After each program the number of detector reports (runtime.RaceErrors) is compared and the new reports are parsed from the detector's log."),
         level_note="a race is only reported when the two accesses actually overlap in the sampled schedule; absence of reports is not absence of races. Races between harness goroutines only stop the run as an infrastructure error",
         rule=("case = (subject type, variant, records in the log, per-goroutine operation lists, repetitions); non-trivial = calls of two different goroutines on the shared value were in progress at the same time (measured); distinct by the case value."),
         assumptions=["the fake cluster and in-memory network are themselves race-free (a report without a library frame is treated as a harness fault, exit 2)",
